@@ -2769,18 +2769,16 @@ def orbital_equinox2equinox(epoch0, epoch, i0, arg0, lon0):
     etar = eta.rad()
     lon0r = lon0.rad()
     pir = pie.rad()
-    # If i0 is very small, the procedure is different
-    if i0 < 1.0:
-        i1 = eta
-        lon1 = pie + p + 180.0
-    else:
-        a = sin(i0r) * sin(lon0r - pir)
-        b = -sin(etar) * cos(i0r) + cos(etar) * sin(i0r) * cos(lon0r - pir)
-        i1 = asin(sqrt(a*a + b*b))
-        i1 = Angle(i1, radians=True)
-        omegapsi = atan2(a, b)
-        omegapsi = Angle(omegapsi, radians=True)
-        lon1 = omegapsi + pie + p
+    # These expressions hold for every inclination, including i0 = 0 (where
+    # they yield i = |eta|) and retrograde orbits (i0 > 90 degrees)
+    a = sin(i0r) * sin(lon0r - pir)
+    b = -sin(etar) * cos(i0r) + cos(etar) * sin(i0r) * cos(lon0r - pir)
+    c = cos(i0r) * cos(etar) + sin(i0r) * sin(etar) * cos(lon0r - pir)
+    i1 = atan2(sqrt(a*a + b*b), c)
+    i1 = Angle(i1, radians=True)
+    omegapsi = atan2(a, b)
+    omegapsi = Angle(omegapsi, radians=True)
+    lon1 = omegapsi + pie + p
     domega = atan2(-sin(etar) * sin(lon0r - pir),
                    sin(i0r) * cos(etar)
                    - cos(i0r) * sin(etar) * cos(lon0r - pir))
